@@ -44,6 +44,38 @@ def scan_fixed_symbols():
     return found
 
 
+def extract_aot_closure():
+    """aot_symbol_name plus every top-level fn / const of aot_compile.rs it (transitively) names, cut
+    verbatim, so that the replay runner can execute the real call-site code against the real dora-symbol."""
+    from rustcut import Source, CutError
+    S = Source(os.path.join(common.repo_root(), 'dora-compiler/src/aot_compile.rs'))
+    top_fns = {n for (n, pos) in S.fns_in(0, len(S.src), 0)}
+    top_consts = set(re.findall(r'(?m)^(?:pub\s+)?const\s+([A-Z][A-Z0-9_]*)\s*:', S.src))
+    want = ['aot_symbol_name']
+    seen = set()
+    out = []
+    while want:
+        n = want.pop()
+        if n in seen:
+            continue
+        seen.add(n)
+        if n in top_fns:
+            d = S.cut_fn(n, depth=0)
+        else:
+            d = S.cut_item('const', n)
+        out.append(d['text'])
+        for ident in set(re.findall(r'[A-Za-z_][A-Za-z0-9_]*', d['text'])):
+            if ident != n and (ident in top_fns or ident in top_consts) and ident not in seen:
+                want.append(ident)
+    if len(seen) > 12:
+        raise CutError('aot_symbol_name closure is unexpectedly large: %s' % sorted(seen))
+    text = '#![allow(unused)]\nuse dora_symbol::*;\n' + '\n'.join(reversed(out)) + '''
+pub fn vx_aot_symbol_name(n: &str) -> String { aot_symbol_name(n) }
+pub const VX_AOT_MAX: usize = AOT_SYMBOL_MAX_LEN;
+'''
+    return text, sorted(seen)
+
+
 def is_upper_hex(c):
     return c in '0123456789ABCDEF'
 
@@ -151,7 +183,9 @@ def run(tier):
     runner = None
     search = None
     try:
-        runner = common.build_runner('c19', {'dora-symbol': 'dora-symbol'}, lock=False)
+        aot_text, aot_items = extract_aot_closure()
+        cov['call_site_items_executed_by_runner'] = aot_items
+        runner = common.build_runner('c19', {'dora-symbol': 'dora-symbol'}, lock=False, extra_files={'aot.rs': aot_text})
         budget = 2500 if tier == 'quick' else 60000
         rc, out, err, wall = common.run_cmd([runner, 'search', str(common.seed()), str(budget)], timeout=budget / 1000 + 120)
         search = json.loads(out.strip().split('\n')[-1])
@@ -235,7 +269,8 @@ def replay(rp):
         print('replay file carries no concrete input (no-failing-input-found); failed obligation: %s' % rp.get('obligation'))
         print(rp.get('verus_output', ''))
         return 1
-    runner = common.build_runner('c19', {'dora-symbol': 'dora-symbol'}, lock=False)
+    aot_text, _items = extract_aot_closure()
+    runner = common.build_runner('c19', {'dora-symbol': 'dora-symbol'}, lock=False, extra_files={'aot.rs': aot_text})
     rc, out, err, _ = common.run_cmd([runner, 'replay', fi['name_hex'], fi.get('name2_hex') or 'null'])
     print(out.strip())
     return 1 if rc != 0 else 0
